@@ -20,8 +20,9 @@ type method struct {
 	// either lists argument choices on which the documentation is silent
 	// (zero-extent slices, out-of-range entries of index slices). Whichever way
 	// the silence is read, the call must either return or end in a package
-	// panic with nothing written: a runtime fault, or a panic after a write,
-	// violates the property under both readings.
+	// panic with nothing written: a runtime fault, a panic after a write, or a
+	// return that leaves an input-only argument changed violates the property
+	// under both readings (one key per method: undocumented-argument-mishandled).
 	either []string
 	build  func(e *env) func()
 }
@@ -37,6 +38,12 @@ var (
 
 func add(name string, recv bool, kinds []string, build func(e *env) func()) {
 	methods = append(methods, method{name: name, recv: recv, kinds: kinds, build: build})
+}
+
+// alsoKinds adds documented faults to the method added last.
+func alsoKinds(kinds ...string) {
+	m := &methods[len(methods)-1]
+	m.kinds = append(append([]string(nil), m.kinds...), kinds...)
 }
 
 // either declares the undocumented argument choices of the method added last.
@@ -73,6 +80,33 @@ func init() {
 }
 
 var recvRC = ks("recv.rows", "recv.cols")
+
+// badPerm builds the index slice of PermuteRows / PermuteCols / Permute: a
+// permutation of 0..n-1 (n >= 2 when a duplicate is asked for), spoiled by the
+// kinds p=-1, p=n (an entry outside 0..n-1) and p.dup (one value twice). The
+// slice is an operand: it is part of the "nothing written" comparison.
+func badPerm(e *env, n int) []int {
+	p := e.perm(e.f("p.len", n))
+	switch {
+	case e.is("p=-1"):
+		p[e.rng.Intn(n)] = -1
+	case e.is("p=n"):
+		p[e.rng.Intn(n)] = n
+	case e.is("p.dup"):
+		a := e.rng.Intn(n)
+		b := (a + 1 + e.rng.Intn(n-1)) % n
+		p[a] = p[b]
+	}
+	e.sigInput("p", func() string { return fmt.Sprint(p) })
+	return p
+}
+
+func permDim(e *env, n int) int {
+	if e.c.Kind == "p.dup" && n < 2 {
+		return 2
+	}
+	return n
+}
 
 func registerDense() {
 	// Add, Sub, MulElem, DivElem: "will panic if the two matrices do not have
@@ -239,7 +273,7 @@ func registerDense() {
 		}
 		return func() { m.Slice(i, k, j, l) }
 	})
-	either("k=i", "l=j") // zero-extent windows inside the capacity: neither allowed nor forbidden by the doc comment
+	alsoKinds("k=i", "l=j") // "and with ErrZeroLength if it has no rows or no columns"
 	// Grow: "If Grow is called with negative increments it will panic with
 	// ErrIndexOutOfRange"; "the receiver itself is not modified".
 	add("Dense.Grow", false, ks("r=-1", "c=-1"), func(e *env) func() {
@@ -309,20 +343,27 @@ func registerDense() {
 		m := e.recvDense(n, n)
 		return func() { m.Permutation(n, p) }
 	})
-	either("p=-1", "p=n") // entries of p outside 0..n-1
+	alsoKinds("p=-1", "p=n") // explicit check: entries of p outside 0..n-1 panic with ErrRowAccess before the receiver is touched
 	// PermuteRows / PermuteCols: "p must have length m, otherwise PermuteRows will panic".
+	// "specified by the permutation p[0],p[1],...,p[m-1] of the integers 0,...,m-1":
+	// a p that is not a permutation violates the documented contract, but no
+	// panic is promised for it (weak oracle).
 	add("Dense.PermuteRows", false, ks("p.len"), func(e *env) func() {
-		m := e.mutDense("m", e.c.R, e.c.C)
-		p := e.perm(e.f("p.len", e.c.R))
+		r := permDim(e, e.c.R)
+		m := e.mutDense("m", r, e.c.C)
+		p := badPerm(e, r)
 		inv := e.rng.Intn(2) == 0
 		return func() { m.PermuteRows(p, inv) }
 	})
+	either("p=-1", "p=n", "p.dup")
 	add("Dense.PermuteCols", false, ks("p.len"), func(e *env) func() {
-		m := e.mutDense("m", e.c.R, e.c.C)
-		p := e.perm(e.f("p.len", e.c.C))
+		c := permDim(e, e.c.C)
+		m := e.mutDense("m", e.c.R, c)
+		p := badPerm(e, c)
 		inv := e.rng.Intn(2) == 0
 		return func() { m.PermuteCols(p, inv) }
 	})
+	either("p=-1", "p=n", "p.dup")
 	// Trace: "will panic with ErrSquare if the matrix is not square".
 	add("Dense.Trace", false, ks("m.cols"), func(e *env) func() {
 		m := e.dense("m", e.c.R, e.c.R)
@@ -500,11 +541,13 @@ func registerVec() {
 	})
 	// Permute: "p must have length n, otherwise Permute will panic".
 	add("VecDense.Permute", false, ks("p.len"), func(e *env) func() {
-		v := e.mutVec("v", e.c.R)
-		p := e.perm(e.f("p.len", e.c.R))
+		n := permDim(e, e.c.R)
+		v := e.mutVec("v", n)
+		p := badPerm(e, n)
 		inv := e.rng.Intn(2) == 0
 		return func() { v.Permute(p, inv) }
 	})
+	either("p=-1", "p=n", "p.dup")
 	add("VecDense.Norm", false, ks("badnorm"), func(e *env) func() {
 		v := e.vec("v", e.c.R)
 		norm := []float64{1, 2, math.Inf(1)}[e.rng.Intn(3)]
@@ -573,7 +616,7 @@ func registerSym() {
 		s := e.recvSym(e.c.K)
 		return func() { s.SubsetSym(a, set) }
 	})
-	either("set=-1", "set=n") // entries of set outside 0..n-1
+	alsoKinds("set=-1", "set=n") // "SubsetSym panics with ErrIndexOutOfRange if an element of set is not a valid index of a."
 	// SliceSym: "panics with ErrIndexOutOfRange if the slice is outside the capacity of the receiver".
 	add("SymDense.SliceSym", false, ks("i=-1", "k=cap+1", "k<i", "i=cap+1"), func(e *env) func() {
 		s := e.sym("s", e.c.R)
@@ -594,7 +637,7 @@ func registerSym() {
 		}
 		return func() { s.SliceSym(i, k) }
 	})
-	either("k=i")
+	alsoKinds("k=i") // "and with ErrZeroLength if k equals i"
 	// GrowSym: explicit check n < 0 -> ErrIndexOutOfRange; the receiver is not modified.
 	add("SymDense.GrowSym", false, ks("n=-1"), func(e *env) func() {
 		s := e.sym("s", e.c.R)
@@ -683,7 +726,7 @@ func registerTri() {
 		}
 		return func() { t.SliceTri(i, k) }
 	})
-	either("k=i")
+	alsoKinds("k=i") // "and with ErrZeroLength if k equals i"
 	// TriDense.SolveTo: "If dst is not empty, SolveTo will panic if dst is not n×nrhs."; explicit check rows(b) != n.
 	add("TriDense.SolveTo", true, ks("dst.rows", "dst.cols", "b.rows"), func(e *env) func() {
 		t := e.tri("t", e.c.R, e.rng.Intn(2) == 0)
@@ -889,10 +932,15 @@ func checkShape(c fcase) *vk.Failure {
 		vk.NonTrivial("mat-either", c.M, c.Kind, recv)
 		switch res.Outcome {
 		case vk.RuntimeFault:
-			return vk.Failf(pfx+"undocumented-argument-runtime-fault/"+c.M, "kind %s, receiver %s, r=%d c=%d k=%d: %s", c.Kind, recv, c.R, c.C, c.K, res.Text)
+			return vk.Failf(pfx+"undocumented-argument-mishandled/"+c.M, "runtime fault: kind %s, receiver %s, r=%d c=%d k=%d: %s", c.Kind, recv, c.R, c.C, c.K, res.Text)
 		case vk.PackagePanic:
 			if k, msg := e.untouched(); k != "" {
-				return vk.Failf(pfx+"undocumented-argument-modified-before-panic/"+c.M, "kind %s, receiver %s, r=%d c=%d k=%d, panic %q: %s", c.Kind, recv, c.R, c.C, c.K, res.Text, msg)
+				return vk.Failf(pfx+"undocumented-argument-mishandled/"+c.M, "operand modified before the panic: kind %s, receiver %s, r=%d c=%d k=%d, panic %q: %s", c.Kind, recv, c.R, c.C, c.K, res.Text, msg)
+			}
+		case vk.Returned:
+			// accepted: then the inputs are as untouchable as in any valid call
+			if k, msg := e.onlyAllowed(); k == "input-modified" {
+				return vk.Failf(pfx+"undocumented-argument-mishandled/"+c.M, "accepted, input modified: kind %s, receiver %s, r=%d c=%d k=%d: the call returned and %s", c.Kind, recv, c.R, c.C, c.K, msg)
 			}
 		}
 		return nil
